@@ -596,6 +596,34 @@ def _curve_delitem_case(ctype, subset):
     return Case("unused_%s_curve" % ctype, build, crosscheck=False)
 
 
+def _curve_delitem_refused_case(ctype, subset):
+    """a curve that is still used: the removal is refused and nothing - in particular no typed curve set - changes"""
+    def build(cx):
+        k, other = cx.name("curve"), cx.name("other")
+        _nonempty(cx, k)
+        cx.assume(cx.t(k) != cx.t(other))
+        w = World(cx)
+        for r in w.regs:
+            r.assume_inv(k, other)
+        used = z3.And(w.curve.U(cx.t(k)), w.curve.CARD(cx.t(k)) > 0)
+        cx.assume(w.curve.D(cx.t(k)), used)
+        for t, (pred, sm) in w.curve.typed.items():
+            cx.assume(pred(cx.t(k)) == z3.BoolVal(t == subset))
+        cx.allow_raise(RuntimeError, used)
+        cx.target(_del_curve, w.curve.obj, k)
+
+        def post(out):
+            if out.kind != "raise":
+                return [("removal_of_a_curve_in_use_is_refused", z3.BoolVal(False))]
+            posts = [("curve_still_in_data_and_usage", z3.And(zb(w.curve.in_data(k)), zb(w.curve.in_usage(k))))]
+            for t in CURVE_SUBSETS:
+                posts.append(("refused_removal_leaves_typed_set%s" % t, w.curve.typed_has(t, k) == z3.BoolVal(t == subset)))
+            posts.append(("other_keys_untouched_in_every_registry", w.unchanged_at(other)))
+            return posts
+        cx.ensure(post)
+    return Case("used_%s_curve" % ctype, build, crosscheck=False)
+
+
 def _del_curve(reg, k):
     reg.__delitem__(k)
 
@@ -671,7 +699,8 @@ CONTRACTS += [
     Contract("wntr.network.model:WaterNetworkModel.get_links_for_node", P + ["C01"], [_links_for_node_case(f) for f in ("ALL", "INLET", "OUTLET", "inlet")] + [_links_unknown_node_case()],
              note="a node whose usage records a pipe out of it, a pump into it, a self-loop valve and a source (bounded in the number of users, names symbolic)"),
     Contract("wntr.network.model:CurveRegistry.__delitem__", P, [_curve_delitem_case(t, s_) for t, s_ in (("HEAD", "_pump_curves"), ("VOLUME", "_volume_curves"),
-                                                                                                  ("HEADLOSS", "_headloss_curves"), ("EFFICIENCY", "_efficiency_curves"))],
+                                                                                                  ("HEADLOSS", "_headloss_curves"), ("EFFICIENCY", "_efficiency_curves"))] +
+             [_curve_delitem_refused_case(t, s_) for t, s_ in (("HEAD", "_pump_curves"), ("VOLUME", "_volume_curves"), ("HEADLOSS", "_headloss_curves"))],
              interpret_always=(_del_curve,)),
     Contract("wntr.network.model:WaterNetworkModel.remove_node/remove_link", P,
              [_remove_case(k, wc, u) for k in ("node", "link") for wc in (True, False) for u in ((True, False) if k == "node" else (False,))]),
@@ -732,6 +761,31 @@ def _reginv_violations(wn):
         _ = [wn.get_curve(c) for c in wn._curve_reg.pump_curve_names]
     except KeyError as e:
         bad.append("curve views raised KeyError(%s)" % e)
+    cur = dict(wn.curves())
+    for ctype, names in (("HEAD", wn._curve_reg.pump_curve_names), ("VOLUME", wn._curve_reg.volume_curve_names),
+                         ("HEADLOSS", wn._curve_reg.headloss_curve_names), ("EFFICIENCY", wn._curve_reg.efficiency_curve_names)):
+        want = sorted(n for n, c in cur.items() if c.curve_type == ctype)
+        if sorted(names) != want:
+            bad.append("typed curve view %s lists %s, curves of that type are %s" % (ctype, sorted(names), want))
+    # a graph weighted by a table that covers only some links / nodes still has every element
+    try:
+        some = sorted(links)[::2]
+        lw = {n: (-1.5 if i % 2 else 2.5) for i, n in enumerate(some)}
+        for md in (False, True):
+            G = wn.to_graph(link_weight=lw, node_weight={n: 1.0 for n in sorted(nodes)[::2]}, modify_direction=md)
+            edges = {k: (u, v, d) for u, v, k, d in G.edges(keys=True, data=True)}
+            if set(G.nodes()) != set(nodes) or sorted(edges) != sorted(links):
+                bad.append("to_graph with weights for some links only does not contain exactly the existing nodes / links (modify_direction=%s)" % md)
+                continue
+            for ln, l in links.items():
+                u, v, d = edges[ln]
+                flip = md and ln in lw and lw[ln] < 0
+                if (u, v) != ((l.end_node_name, l.start_node_name) if flip else (l.start_node_name, l.end_node_name)):
+                    bad.append("to_graph: direction of %s wrong (modify_direction=%s)" % (ln, md))
+                if d.get("type") != l.link_type or (ln in lw and d.get("weight") != (abs(lw[ln]) if md else lw[ln])) or (ln not in lw and "weight" in d):
+                    bad.append("to_graph: attributes of %s wrong: %r" % (ln, d))
+    except Exception as e:
+        bad.append("to_graph with weights raised %r" % (e,))
     return bad
 
 
